@@ -249,4 +249,28 @@ def distanceMatrix (c : Calc) (seqs : List (List Int)) : List (List Stat) :=
   let d := expand seqs.length (run c seqs)
   (List.range seqs.length).map fun a => (List.range seqs.length).map fun b => cell d a b
 
+/-! ### the same pipeline with the repaired duplicate test (fixes/C15-duplicate-shortcut-noncanonical.patch):
+a sequence is an alias of another only if the index arrays are equal; a pair without observed
+differences gets distance 0 directly (or "invalid" if the two share no canonical column).
+Used by the correspondence check when the tree under test carries the repair. -/
+
+def innerStepR (c : Calc) (seqs : List (List Int)) (i : Nat) (st : RunState) (j : Nat) : RunState :=
+  if st.dupes.contains j then st
+  else
+    let m := countsOf (seqs.getD i []) (seqs.getD j [])
+    if !hasOffDiag m && (seqs.getD i [] == seqs.getD j []) then
+      { st with dupes := st.dupes ++ [j], duped := st.duped ++ [(i, j)] }
+    else
+      let s := if !hasOffDiag m then (if 0 < total m then Stat.zero else Stat.invalid) else stat c m
+      { st with dists := dictSet (dictSet st.dists (i, j) s) (j, i) s, raised := st.raised || isInvalid s }
+
+def outerStepR (c : Calc) (seqs : List (List Int)) (st : RunState) (i : Nat) : RunState :=
+  if st.dupes.contains i then st
+  else (List.range' (i + 1) (seqs.length - (i + 1))).foldl (innerStepR c seqs i) st
+
+def runR (c : Calc) (seqs : List (List Int)) : RunState :=
+  let st := (List.range (seqs.length - 1)).foldl (outerStepR c seqs) ⟨[], [], [], false⟩
+  if st.duped.isEmpty then st
+  else { st with dists := st.dists.filter fun e => !(st.dupes.contains e.1.1 || st.dupes.contains e.1.2) }
+
 end CogentModel.Distance
